@@ -67,6 +67,13 @@ def handle : Handler := fun op inp =>
   | "tree.dropCells" => some do
       let t ← parseTree (← field inp "tree")
       return jTree t.dropCells
+  | "tree.fromLinks" => some do
+      let h ← natList (← field inp "hierarchy")
+      let rows ← asList natList (← field inp "rows")
+      let rows := rows.filterMap (fun r => match r with
+        | [a, b, c, d] => some ({ label := a, level := b, parent := c, parentLevel := d } : RawTree.LinkRow)
+        | _ => none)
+      return jExcept jTree (RawTree.fromLinks h rows)
   | "tree.fromRecords" => some do
       let cols ← natList (← field inp "cols")
       let recs ← asList natList (← field inp "recs")
